@@ -158,7 +158,7 @@ func (*TargetPointer) Build(gen Generator, ctx *MethodContext, sourceID *xtype.J
 
 	// A source expression that was handed through unconverted (skipCopySameType) must not be
 	// referenced, the pointer would alias the memory of the source. A plain identifier is a
-	// parameter or a loop variable and thereby already a copy.
+	// parameter and thereby already a copy.
 	if id == sourceID && !token.IsIdentifier(id.Code.GoString()) {
 		id = xtype.OtherID(id.Code)
 	}
